@@ -1,5 +1,6 @@
 (* C06 -- Lifted scan and vmap equal the explicit loop and the per-example stack. *)
-From Flaxm Require Import Lib.Harness Model.NnxFilters Model.NnxLift Model.LinenLoop Proofs.NnxLift Proofs.LinenLoop.
+From Coq Require Import ZArith.
+From Flaxm Require Import Lib.Harness Model.NnxFilters Model.NnxLift Model.LinenLoop Model.Axes Proofs.NnxLift Proofs.LinenLoop Proofs.Axes.
 
 (* nn.scan: for every body that leaves the broadcast collections alone, every assignment of variables to axis /
    broadcast / carry, length, direction, carry and inputs, the lifted scan IS the unrolled Python loop over sliced
@@ -32,6 +33,25 @@ Proof. exact vmap_none_index_independent. Qed.
 Print Assumptions C06_vmap_shared_is_shared.
 
 (* F25 inside the model: bc += 1 over three iterations; nn.scan leaves bc + 1 (and every iteration sees bc + 1), the loop bc + 3 *)
+(* the axis arithmetic of nn.scan (in_axes / out_axes / variable_axes at any position, negative included): moving the scan
+   axis of a stack of L slices to the front exposes the slices, and transpose_from_front undoes transpose_to_front, as
+   permutations and on shapes, for every rank *)
+Theorem C06_scan_axis_to_front : forall L s ax, valid_axis (S (length s)) ax ->
+  transpose_shape (stack_shape L s ax) (to_front_perm (S (length s)) ax) = L :: s.
+Proof. exact stack_to_front. Qed.
+Print Assumptions C06_scan_axis_to_front.
+Theorem C06_scan_axes_inverse : forall n ax, valid_axis n ax -> compose_perm (to_front_perm n ax) (from_front_perm n ax) = seq 0 n.
+Proof. exact from_front_after_to_front. Qed.
+Print Assumptions C06_scan_axes_inverse.
+Theorem C06_scan_axes_roundtrip : forall s ax, valid_axis (length s) ax ->
+  transpose_shape (transpose_shape s (to_front_perm (length s) ax)) (from_front_perm (length s) ax) = s.
+Proof. exact scan_axes_roundtrip. Qed.
+Print Assumptions C06_scan_axes_roundtrip.
+Example C06_axes_example :
+  to_front_perm 4 (-2) = [2; 0; 1; 3] /\ from_front_perm 4 (-2) = [1; 2; 0; 3] /\ stack_shape 7 [2; 3] (-1) = [2; 3; 7] /\
+  valid_axis 4 (-2) /\ compose_perm [2; 0; 1; 3] [2; 0; 1; 3] <> seq 0 4.
+Proof. vm_compute. repeat split; try reflexivity; try discriminate. Qed.
+
 Example C06_broadcast_write_refuted :
   let sa := [(NEllipsis, SNone)] in
   let vs := [mkVar (mkLeaf [] [] None 0) (Whole [4%Z])] in
